@@ -599,7 +599,7 @@ def work(desc: dict) -> Optional[dict]:
         pf11 = sorted(pt.defined_channels)
     return {'case': case_json(case), 'impl': obs['impl'], 'line': line,
             'meta': {'kinds': kinds, 'depth': ptgen.spec_depth(case['spec']), 'keep': keep, 'complete': complete,
-                     'pf11': pf11},
+                     'pf11': pf11, 'sum_piecewise': sum_piecewise_class(pt)},
             'family': desc['family'], 'label': desc.get('label', desc['family'])}
 
 
@@ -624,8 +624,62 @@ def run_descs(ctx, descs: List[dict], workers: Optional[int] = None) -> List[dic
 # correspondence and judge
 # ------------------------------------------------------------------------------------------------
 
+def sum_piecewise_class(pt) -> bool:
+    """class of the open finding PF-C07-4: a ForLoopPT L_in lies inside a ForLoopPT L_out, the symbolic integral of L_in's body is
+    (on some channel) a Piecewise with a condition that mentions L_in's own index -- e.g. a FunctionPT `Max(v + i/4, w)*t` -- and
+    that integral also mentions L_out's index.  L_out substitutes its index (`subs`) into `Sum(<Piecewise>, (i, ..))`; sympy then
+    folds the Piecewise out of the Sum although its condition depends on the summation index, `i` becomes a free variable and the
+    integral cannot be evaluated (ExpressionVariableMissingException)."""
+    import sympy
+
+    def loops_below(node, outer: list, out: list):
+        name = type(node).__name__
+        if name == 'ForLoopPulseTemplate':
+            for o in outer:
+                out.append((o, node))
+            outer = outer + [node]
+        for c in _tpl_children(node):
+            loops_below(c, outer, out)
+    pairs: list = []
+    try:
+        loops_below(pt, [], pairs)
+        for l_out, l_in in pairs:
+            i_in, i_out = sympy.Symbol(l_in.loop_index), sympy.Symbol(l_out.loop_index)
+            for e in l_in.body.integral.values():
+                ex = sympy.sympify(getattr(e, 'underlying_expression', e))
+                if i_out not in ex.free_symbols:
+                    continue
+                for pw in ex.atoms(sympy.Piecewise):
+                    if any(i_in in cond.free_symbols for _v, cond in pw.args if hasattr(cond, 'free_symbols')):
+                        return True
+    except Exception:  # noqa -- the class predicate must never break a run
+        return False
+    return False
+
+
+def _tpl_children(pt) -> list:
+    t = type(pt).__name__
+    if t in ('SequencePulseTemplate', 'AtomicMultiChannelPulseTemplate'):
+        return list(pt.subtemplates)
+    if t in ('RepetitionPulseTemplate', 'ForLoopPulseTemplate'):
+        return [pt.body]
+    if t in ('MappingPulseTemplate', 'ParallelChannelPulseTemplate'):
+        return [pt.template]
+    if t == 'ArithmeticPulseTemplate':
+        return [pt._pulse_template]
+    if t == 'ArithmeticAtomicPulseTemplate':
+        return [pt.lhs, pt.rhs]
+    if t == 'TimeReversalPulseTemplate':
+        return [pt._inner]
+    return []
+
+
+MISSING_VAR = 'other:ExpressionVariableMissingException'
 FINDING_OF_TAG = {'pf09': 'PF-09', 'empty-part': 'PF-C07-3', 'table-start': 'PF-C07-2'}
 WHAT = {
+    'PF-C07-4': 'ForLoopPulseTemplate.integral of a loop nested in a loop: the outer index is substituted into Sum(<Piecewise with a '
+                'condition on the inner index>, (i, ..)), sympy folds the Piecewise out of the Sum, the inner index becomes a free '
+                'variable and the integral cannot be evaluated',
     'PF-09': 'ForLoopPulseTemplate.final_values evaluates the body at start + Max(floor((stop-start)/step) - 1, 0)*step, '
              'which is not the last index of the range when the step does not divide stop - start',
     'PF-C07-2': 'initial_values of a table / point template is the first entry although a first segment with jump '
@@ -675,6 +729,8 @@ def diff_model(rec) -> List[str]:
             elif iv[0] != m[0]:
                 if (m[0] == 'error' and m[1] == 'unsupported') or rejected:
                     continue            # outside the modelled fragment (counted by the caller) / not accepted
+                if q == 'integral' and iv == ('error', MISSING_VAR) and rec['meta'].get('sum_piecewise'):
+                    continue            # open finding PF-C07-4 (reported by the judge)
                 if m[0] == 'error' and m[1] in ('parameter_missing', 'other:ExpressionVariableMissingException'):
                     # sympy simplified the missing parameter away (0*x, x - x): the expression needs fewer parameters
                     # than the template; the value itself is still judged against the instantiated pulse
@@ -778,6 +834,11 @@ def judge(rec) -> Tuple[List[dict], List[dict]]:
             if iv[0] != 'ok':
                 m = reply['model'].get(ch, {}).get(q)
                 if m is not None and m[0] == 'error' and m[1] == 'unsupported':
+                    continue
+                if q == 'integral' and iv[1] == MISSING_VAR and rec['meta'].get('sum_piecewise'):
+                    known.append({'clause': 'integral-raises', 'channel': ch, 'finding': 'PF-C07-4', 'tags': [],
+                                  'what': 'evaluating integral[%s] at the parameters raises ExpressionVariableMissingException; the '
+                                          'instantiated pulse has %s' % (ch, want[0][1])})
                     continue
                 viol.append({'clause': q + '-raises', 'channel': ch,
                              'what': 'evaluating %s[%s] at the parameters raises %s; the instantiated pulse has %s'
